@@ -29,3 +29,19 @@ NOT_APPLICABLE = {}
 
 # verif-guarded hook commits in /repo (add-only)
 HOOK_COMMITS = ["fd0e965"]
+
+PROPS["C09"] = {
+    "modules": ["OxiaVerif.Props.C09", "OxiaVerif.Props.C09OnTree"],
+    "facts": ["codecV2HeaderSize", "walTruncateUpdatesOffsetsOnAllPaths", "walLastOffsetIsSynced"],
+    "trusted_base": [KERNEL, EXTRACT, CORR,
+                     "the codec, mmap and the file system below the segment abstraction (a record occupies header+payload bytes; close/reopen keeps the mapped content) - covered separately by C10",
+                     "protobuf marshalling of LogEntry (sizes are taken from the real marshaller)"],
+    "assumptions": ["entries fit an empty segment (header + marshalled size <= segment size)",
+                    "single caller at a time: concurrency of the WAL's own sync goroutine is not modelled here (C08/C04)",
+                    "reads (readAt/forward/reverse readers) and the age clause of trimming are tied to the list view by the correspondence check only"],
+    "rule": "generated WAL programs (append / appendsync / sync / truncate / clear / trim with injected clock and commit offset / reopen / first / last / forward and reverse reads), segment sizes 64..65536 bytes, payloads sized around the segment capacity, timestamps mostly monotone; after every op the result is compared with the Lean SegWal model, and an independent list-model oracle in Go checks read-back identity, contiguity and the last+1 acceptance rule. Non-trivial = at least 3 successful appends and a successful truncate/trim/reopen; distinct by op list.",
+    "level_text": "Machine-checked proof (Lean 4) over the segmented-WAL model for every operation sequence and every segment/entry size: structural invariant of all reachable states, append adds exactly the entry and is accepted exactly at last+1, truncate stores/reports the new last offset on all paths (fact read from TruncateLog), trimming drops only whole leading read-only segments and never passes the commit offset; the model is tied to server/wal by differential runs on the real WAL (real files, injected clock).",
+    "level_note": "Trusted: Lean kernel; fact extractor rules for TruncateLog/LastOffset/header size; harness + driver; codec/mmap/filesystem below the segment abstraction. Partial: read paths and the retention-age clause are covered by correspondence only; oversized entries (> segment) excluded by hypothesis.",
+    "technique": "Lean 4 proof (invariant by induction over WAL operations) + regenerated facts + differential correspondence on the real WAL",
+    "design_ref": "DESIGN.md section 6 C09",
+}
